@@ -44,7 +44,7 @@ func genTreeCaseWith(t *rapid.T, mayBeUnsafe bool) *Case {
 		extra = append(extra, "script", "style", "script", "style", "script", "style")
 	}
 	m := BuildModel(spec)
-	in := genTree(t, m, &treeOpts{extraEls: extra, depth: 5, comments: true, voidEnds: true})
+	in := genTree(t, m, &treeOpts{extraEls: extra, depth: 5, comments: true, voidEnds: true, selfClose: true})
 	return &Case{Spec: spec, Input: BStr(in), Kind: "tree", Ints: []int{drawStage(t, spec)}}
 }
 
